@@ -307,7 +307,11 @@ def execute_coap(plan, ch):
         for i, op in enumerate(plan["ops"]):
             f = op["fault"]
             if f and p.connection.is_connected:
-                w.fault_queue.append({"kind": f, "which": op["which"], "pos": op["pos"], "bit": op["bit"]})
+                fq = {"kind": f, "which": op["which"], "pos": op["pos"], "bit": op["bit"]}
+                if f == "neterr":
+                    fq["errno"] = [None, 113, 101, 111][op["which"] % 4]  # plain / EHOSTUNREACH / ENETUNREACH / ECONNREFUSED
+                    fq["delivered"] = bool(op["bit"] % 2)
+                w.fault_queue.append(fq)
                 state["faults"] += 1
                 if f == "replay":
                     state["replays"] += 1
